@@ -125,7 +125,7 @@ func pkgID(name, version string) string {
 // hitByAncestorOp: another file's ancestor op in this layer deletes a directory above file f too.
 func hitByAncestorOp(l layer, f int) bool {
 	for g, op := range l.ops {
-		if g != f && len(op) == 2 && (op[0] == 'a' || op[0] == 'r') {
+		if g != f && len(op) == 2 && (op[0] == 'a' || op[0] == 'r' || op[0] == 'l' || op[0] == 'h') {
 			if dir := ancestor(g, int(op[1]-'0')); dir != "" && strings.HasPrefix(files[f], dir+"/") {
 				return true
 			}
@@ -310,7 +310,7 @@ func run(c tcase) string {
 							sb.WriteString(pkgLine(d) + "\n")
 						}
 						es = append(es, imgx.TarEnt{Name: linkTarget[f], Typ: tar.TypeReg, Body: sb.String()})
-					case (op[0] == 'a' || op[0] == 'r') && len(op) == 2:
+					case (op[0] == 'a' || op[0] == 'r' || op[0] == 'l' || op[0] == 'h') && len(op) == 2:
 						// an ANCESTOR directory of the file, n levels up, is deleted (a) or replaced by a regular file (r)
 						dir := ancestor(f, int(op[1]-'0'))
 						if dir == "" {
@@ -321,10 +321,21 @@ func run(c tcase) string {
 							continue
 						}
 						seen[op[:1]+dir] = true
-						if op[0] == 'a' {
+						switch op[0] {
+						case 'a':
 							es = append(es, imgx.TarEnt{Name: imgx.WhName(dir), Typ: tar.TypeReg})
-						} else {
+						case 'r':
 							es = append(es, imgx.TarEnt{Name: dir, Typ: tar.TypeReg, Body: "not a directory"})
+						case 'l', 'h':
+							// the ancestor becomes a symlink (l) / hard link (h) to another, existing directory (lib -> usr/lib):
+							// whatever older layers have below the old directory is gone from the view
+							other := fmt.Sprintf("moved/d%d_%d", i, f)
+							es = append(es, imgx.TarEnt{Name: other + "/", Typ: tar.TypeDir}, imgx.TarEnt{Name: other + "/readme", Typ: tar.TypeReg, Body: "x"})
+							if op[0] == 'l' {
+								es = append(es, imgx.TarEnt{Name: dir, Typ: tar.TypeSymlink, Link: "/" + other})
+							} else {
+								es = append(es, imgx.TarEnt{Name: dir, Typ: tar.TypeLink, Link: other})
+							}
 						}
 					case op == "d":
 						linkTarget[f] = ""
@@ -571,7 +582,7 @@ func randCase(r *rand.Rand) tcase {
 			case x == 6 && deep:
 				// delete or replace an ancestor directory at any level above the file
 				depth := len(strings.Split(files[f], "/")) - 1
-				l.ops[f] = fmt.Sprintf("%c%d", "aar"[r.Intn(3)], 1+r.Intn(depth))
+				l.ops[f] = fmt.Sprintf("%c%d", "aarrllh"[r.Intn(7)], 1+r.Intn(depth))
 				last[f] = ""
 			default:
 				l.ops[f] = randPkgs(r, last[f])
@@ -589,7 +600,7 @@ func randCase(r *rand.Rand) tcase {
 // cancelled after the first re-extraction. a<n> / r<n>: the directory n levels above the file (three deep) is deleted /
 // replaced by a regular file.
 func exhaustive(emit func(tcase)) {
-	opts := []string{"E", "k", "d", "w", "w1", "w5", "w15", "w51", "w12", "s1", "s15", "a1", "a2", "a3", "r2"}
+	opts := []string{"E", "k", "d", "w", "w1", "w5", "w15", "w51", "w12", "s1", "s15", "a1", "a2", "a3", "r2", "l2"}
 	for n := 1; n <= 4; n++ {
 		total := 1
 		for i := 0; i < n; i++ {
